@@ -33,6 +33,9 @@ type Case struct {
 	GC      bool   `json:"gc"`
 	Warm    int    `json:"warm,omitempty"` // buffers obtained from the allocator (and put back) before the by-value copies are taken
 	Repeat  int    `json:"repeat"`
+	Hold    int    `json:"hold,omitempty"` // buffers each goroutine holds at the same time (0 = 1), released in get order or (Rev) newest first
+	Rev     bool   `json:"rev,omitempty"`
+	Table   bool   `json:"table,omitempty"` // holders also register every buffer in a shared ownership table (adds synchronisation, so only some cases use it)
 }
 
 var Types = []string{"int8", "uint16", "int32", "float32", "float64", "uint64"}
@@ -44,7 +47,7 @@ func Check(c *Case) (res kit.Result) {
 	for _, t := range Types {
 		okT = okT || t == c.T
 	}
-	if !okT || c.C < 1 || c.C > 8 || c.K < 0 || c.K > 1<<21 || (c.K > 64 && c.G*c.M > 64) || c.L < 0 || c.L > c.K || c.G < 1 || c.G > 64 || c.M < 1 || c.M > 200 ||
+	if !okT || c.C < 1 || c.C > 8 || c.K < 0 || c.K > 1<<21 || (c.K > 64 && c.G*c.M > 64) || c.L < 0 || c.L > c.K || c.G < 1 || c.G > 64 || c.M < 1 || c.M > 20000 || (c.M > 200 && c.C*c.K > 16) || c.Hold < 0 || c.Hold > 4 ||
 		c.Procs < 1 || c.Procs > 64 || len(c.Yields) != c.G || len(c.ByValue) != c.G || c.Repeat < 1 || c.Repeat > 50 {
 		return
 	}
@@ -67,6 +70,15 @@ func Check(c *Case) (res kit.Result) {
 	}
 	if c.GC {
 		res.Class("gcDuringRun")
+	}
+	if c.Hold >= 2 {
+		res.Class("goroutinesHoldSeveralBuffers")
+	}
+	if c.M >= 1000 && c.G >= 3 && c.Procs >= 2 {
+		res.Class("thousandsOfCyclesInParallel")
+	}
+	if c.Table {
+		res.Class("ownershipTable")
 	}
 	if c.Warm > 0 {
 		res.Class("allocatorUsedBeforeCopies")
@@ -105,6 +117,7 @@ func runOnce(c *Case) (string, int64) {
 		return b.Get(0)
 	}
 	var recycled atomic.Int64
+	var owners sync.Map // buffer object -> goroutine holding it (only with c.Table)
 	start := make(chan struct{})
 	stop := make(chan struct{})
 	var wg, gcwg sync.WaitGroup
@@ -139,44 +152,76 @@ func runOnce(c *Case) (string, int64) {
 			<-start
 			y := c.Yields[g]
 			seen := map[any]bool{}
+			hold := c.Hold
+			if hold < 1 {
+				hold = 1
+			}
+			bufs := make([]kit.AnyBuf, 0, hold)
+			fulls := make([]kit.AnyBuf, 0, hold)
+			stamps := make([]kit.Val, 0, hold)
 			for cycle := 0; cycle < c.M; cycle++ {
-				b := p.Get()
-				if seen[b.Raw()] {
-					recycled.Add(1)
-				}
-				seen[b.Raw()] = true
-				if y&1 != 0 {
-					runtime.Gosched()
-				}
-				if h := b.Hdr(); h != want {
-					errs[g] = fmt.Sprintf("goroutine %d cycle %d: Get returned %+v, want %+v", g, cycle, h, want)
-					return
-				}
-				full := b.Slice(0, K)
-				n := full.Len()
-				for i := 0; i < n; i++ {
-					if v := full.Get(i); !kit.SameVal(v, zero) {
-						errs[g] = fmt.Sprintf("goroutine %d cycle %d: obtained buffer is not fresh: sample %d reads %s", g, cycle, i, v)
+				bufs, fulls, stamps = bufs[:0], fulls[:0], stamps[:0]
+				for hi := 0; hi < hold; hi++ {
+					b := p.Get()
+					if c.Table {
+						if o, dup := owners.LoadOrStore(b.Raw(), g); dup {
+							errs[g] = fmt.Sprintf("goroutine %d cycle %d: Get returned a buffer that goroutine %v holds at this moment", g, cycle, o)
+							return
+						}
+					}
+					bufs = append(bufs, b)
+					if len(seen) < 4096 {
+						if seen[b.Raw()] {
+							recycled.Add(1)
+						}
+						seen[b.Raw()] = true
+					}
+					if y&1 != 0 {
+						runtime.Gosched()
+					}
+					if h := b.Hdr(); h != want {
+						errs[g] = fmt.Sprintf("goroutine %d cycle %d: Get returned %+v, want %+v", g, cycle, h, want)
 						return
 					}
-				}
-				st := stampVal(g, cycle)
-				for i := 0; i < n; i++ {
-					full.Set(i, st)
+					full := b.Slice(0, K)
+					n := full.Len()
+					for i := 0; i < n; i++ {
+						if v := full.Get(i); !kit.SameVal(v, zero) {
+							errs[g] = fmt.Sprintf("goroutine %d cycle %d: obtained buffer is not fresh: sample %d reads %s", g, cycle, i, v)
+							return
+						}
+					}
+					st := stampVal(g, cycle*hold+hi)
+					for i := 0; i < n; i++ {
+						full.Set(i, st)
+					}
+					fulls, stamps = append(fulls, full), append(stamps, st)
 				}
 				if y&2 != 0 {
 					runtime.Gosched()
 				}
-				for i := 0; i < n; i++ {
-					if v := full.Get(i); !kit.SameVal(v, st) {
-						errs[g] = fmt.Sprintf("goroutine %d cycle %d: wrote stamp %s over the whole capacity, sample %d now reads %s - another holder wrote to this storage", g, cycle, st, i, v)
-						return
+				for hi, full := range fulls {
+					n := full.Len()
+					for i := 0; i < n; i++ {
+						if v := full.Get(i); !kit.SameVal(v, stamps[hi]) {
+							errs[g] = fmt.Sprintf("goroutine %d cycle %d: wrote stamp %s over the whole capacity of held buffer %d, sample %d now reads %s - another holder wrote to this storage", g, cycle, stamps[hi], hi, i, v)
+							return
+						}
 					}
 				}
 				if y&4 != 0 {
 					runtime.Gosched()
 				}
-				p.Put(b)
+				for hi := range bufs {
+					b := bufs[hi]
+					if c.Rev {
+						b = bufs[len(bufs)-1-hi]
+					}
+					if c.Table {
+						owners.Delete(b.Raw())
+					}
+					p.Put(b)
+				}
 			}
 		}(g, p)
 	}
@@ -199,7 +244,8 @@ func FP(c *Case) uint64 {
 	if c.GC {
 		gc = 1
 	}
-	h.Ints([]int{c.C, c.L, c.K, c.G, c.M, c.Procs, gc, c.Repeat, c.Warm})
+	h.Ints([]int{c.C, c.L, c.K, c.G, c.M, c.Procs, gc, c.Repeat, c.Warm, c.Hold})
+	h.Str(fmt.Sprint(c.Rev, c.Table))
 	h.Ints(c.Yields)
 	for _, b := range c.ByValue {
 		if b {
@@ -224,8 +270,19 @@ func Gen(t *rapid.T) *Case {
 		c.G = rapid.IntRange(2, 6).Draw(t, "gHuge")
 		c.M = rapid.IntRange(1, 18/c.G).Draw(t, "mHuge")
 	}
+	c.Hold = rapid.SampledFrom([]int{1, 1, 2, 2, 3, 4}).Draw(t, "hold")
+	c.Rev = rapid.Bool().Draw(t, "rev")
+	hammer := c.K <= 64 && rapid.IntRange(0, 3).Draw(t, "hammer") == 0
+	if hammer { // tiny buffers, thousands of cycles: contention on the pool itself
+		c.C = rapid.IntRange(1, 2).Draw(t, "cHammer")
+		c.K = rapid.IntRange(0, 4).Draw(t, "kHammer")
+		c.L = rapid.SampledFrom([]int{0, c.K}).Draw(t, "lHammer")
+		c.G = rapid.SampledFrom([]int{3, 4, 8, 16, 32}).Draw(t, "gHammer")
+		c.M = rapid.SampledFrom([]int{500, 1000, 2000, 4000}).Draw(t, "mHammer") * 8 / c.G
+		c.Table = rapid.IntRange(0, 2).Draw(t, "table") == 0
+	}
 	c.Procs = rapid.SampledFrom([]int{1, 2, 4, 8, 16}).Draw(t, "procs")
-	c.GC = rapid.IntRange(0, 3).Draw(t, "gc") == 0
+	c.GC = rapid.IntRange(0, 3).Draw(t, "gc") == 0 && !hammer
 	c.Repeat = 1
 	if rapid.Bool().Draw(t, "warmSel") {
 		c.Warm = rapid.IntRange(1, 4).Draw(t, "warm")
